@@ -1,5 +1,5 @@
 From Coq Require Import NArith List Bool Arith.
-From LTV.C03 Require Import ParamsGen Model Proofs ProofsA ProofsB ProofsC ProofsD ProofsE ProofsF.
+From LTV.C03 Require Import ParamsGen Model Proofs ProofsA ProofsB ProofsC ProofsD ProofsE ProofsF ProofsG ProofsH.
 Import ListNotations.
 
 Theorem params_ok_now : params_ok = true.
@@ -145,3 +145,56 @@ Theorem meta_machine_refines_decode :
   decode HS handle rl h (pre ++ concat segs) = PRes (m_h s') (m_mode s') (m_buf s') es.
 Proof. exact ProofsF.meta_machine_refines_decode. Qed.
 Print Assumptions meta_machine_refines_decode.
+
+(* Events: segments, read pauses (throttle quota 0: reads stop and resume) at any point, a remote
+   close at any byte.  The run always ends normally; what was read before the close is decoded as
+   `decode` does; a pause only delays (unread bytes stay in the socket; none if reads are not
+   paused at the end); a remote close adds exactly one effect, Close of that connection. *)
+Theorem machine_events :
+  forall (HS : Type) (handle : HS -> msg -> HS * verdict) (rl : role) (budget : nat -> nat) (short : nat -> bool)
+         (h : HS) (pre : list N) (evs : list event),
+  (length pre < bufsz)%nat ->
+  exists s' sock' es hd md bd ed consumed,
+    run_events HS handle rl budget short h pre evs = MRet s' sock' es /\
+    ebytes evs = consumed ++ sock' /\
+    decode HS handle rl h (pre ++ consumed) = PRes hd md bd ed /\
+    (epaused false evs = false -> sock' = []) /\
+    (if eeof evs
+     then sock' = [] /\ m_mode s' = RClosed /\
+          es = ed ++ (match md with RClosed => [] | _ => [EClose REof] end)
+     else m_h s' = hd /\ m_mode s' = md /\ m_buf s' = bd /\ es = ed).
+Proof. exact ProofsG.machine_events. Qed.
+Print Assumptions machine_events.
+
+(* no_fatal_from_input with the handler hypothesis discharged for the concrete handler hreal, for
+   ALL configurations, byte strings and event lists (the code-level internal_error sites that
+   hreal abstracts, and the properties that own them, are listed in ProofsG.v) *)
+Theorem hreal_never_fatal : forall (c : cfg), handler_never_fatal hst (hreal c).
+Proof. exact ProofsC.hreal_never_fatal. Qed.
+Print Assumptions hreal_never_fatal.
+
+Theorem no_fatal_real_decode : forall (c : cfg) (h0 : hst) (s : list N) h' m' b' es,
+  decode_real c h0 s = PRes h' m' b' es -> ~ In EFatal es.
+Proof. exact ProofsG.no_fatal_real_decode. Qed.
+Print Assumptions no_fatal_real_decode.
+
+Theorem no_fatal_real_machine : forall (c : cfg) (budget : nat -> nat) (short : nat -> bool) (h0 : hst)
+  (pre : list N) (evs : list event),
+  (length pre < bufsz)%nat ->
+  exists s' sock' es,
+    run_events hst (hreal c) (c_role c) budget short h0 pre evs = MRet s' sock' es /\ ~ In EFatal es.
+Proof. exact ProofsG.no_fatal_real_machine. Qed.
+Print Assumptions no_fatal_real_machine.
+
+(* The metadata connection, unconditionally (totality added to meta_machine_refines_decode): the
+   run always ends normally -- no MFault (never writes past the 512-byte buffer), no MOut (the
+   event_read loop terminates) -- and equals the decode of the whole stream *)
+Theorem meta_machine_segmentation_independent :
+  forall (HS : Type) (handle : HS -> msg -> HS * verdict) (rl : role) (budget : nat -> nat)
+         (h : HS) (pre : list N) (segs : list (list N)),
+  (length pre <= bufcap)%nat ->
+  exists s' es,
+    run_meta HS handle rl budget h pre segs = MRet s' [] es /\
+    decode HS handle rl h (pre ++ concat segs) = PRes (m_h s') (m_mode s') (m_buf s') es.
+Proof. exact ProofsH.meta_machine_segmentation_independent. Qed.
+Print Assumptions meta_machine_segmentation_independent.
